@@ -51,3 +51,45 @@ def export_smt2(assumptions, goal):
             s.add(_b(a))
     s.add(z3.Not(_b(goal)))
     return s.to_smt2()
+
+
+def nice_model(constraints, real_vars, int_vars=(), dens=(64, 1024, 65536), lo=-4, hi=64, timeout_s=30):
+    """Re-solve `constraints` (already known sat) with every real variable on a dyadic grid k/den inside [lo, hi], so that
+    the model is exactly representable in float32 and replays without rounding noise. Falls back to the plain model."""
+    for den in dens:
+        s = z3.Solver()
+        s.set("timeout", int(timeout_s * 1000))
+        for c in constraints:
+            if c is not True:
+                s.add(_b(c))
+        for i, v in enumerate(real_vars):
+            k = z3.Int(f"__grid{i}")
+            s.add(v == z3.ToReal(k) / den, k >= lo * den, k <= hi * den)
+        if s.check() == z3.sat:
+            return s.model(), den
+    s = z3.Solver()
+    s.set("timeout", int(timeout_s * 1000))
+    for c in constraints:
+        if c is not True:
+            s.add(_b(c))
+    if s.check() == z3.sat:
+        return s.model(), None
+    return None, None
+
+
+def free_vars(*terms):
+    seen, out = set(), []
+
+    def rec(t):
+        if t.get_id() in seen:
+            return
+        seen.add(t.get_id())
+        if z3.is_const(t) and t.decl().kind() == z3.Z3_OP_UNINTERPRETED:
+            out.append(t)
+        for c in t.children():
+            rec(c)
+
+    for t in terms:
+        if isinstance(t, z3.ExprRef):
+            rec(t)
+    return out
